@@ -191,4 +191,56 @@ def genMembers (env : Env) : Nat → List Ty → List Nat → Option (List (Stri
     | some (v, ds) => (genMembers env fuel ms ds).map fun (rest, ds) => ((name, v) :: rest, ds)
 end
 
+/-! ### a static check under which the generated functions return -/
+
+mutual
+/-- the recursion of `gen` on the static type only: every named type is declared, no unsupported
+basic kind, every enum has an exported constant (`rand.Intn(0)` panics), every union a member, and
+the nesting of calls stays within `fuel` -/
+def returns (env : Env) : Nat → Ty → Bool
+  | 0, _ => false
+  | fuel + 1, t =>
+    match t with
+    | .basic _ bk => bk != .none
+    | .time _ => true
+    | .arr n e => n == 0 || returns env fuel e          -- a zero-length array calls nothing
+    | .map k e => returns env fuel k && returns env fuel e
+    | .ptr e => returns env fuel e
+    | .ref q =>
+      match env.find? q with
+      | none => false
+      | some d =>
+        match d.body with
+        | .named u => returns env fuel u
+        | .enum _ _ ms _ => !(exportedMembers ms).isEmpty
+        | .struct fs _ _ => returnsFields env fuel fs
+        | .union ms => !ms.isEmpty && returnsAll env fuel ms
+def returnsFields (env : Env) : Nat → List Field → Bool
+  | _, [] => true
+  | fuel, f :: fs => (dataIgnored f || returns env fuel f.ty) && returnsFields env fuel fs
+def returnsAll (env : Env) : Nat → List Ty → Bool
+  | _, [] => true
+  | fuel, m :: ms => returns env fuel m && returnsAll env fuel ms
+end
+
+theorem returnsFields_mem (env : Env) (fuel : Nat) : ∀ (fs : List Field), returnsFields env fuel fs = true →
+    ∀ f ∈ fs, dataIgnored f = false → returns env fuel f.ty = true
+  | [], _, f, hf, _ => by simp at hf
+  | g :: gs, h, f, hf, hi => by
+    simp only [returnsFields, Bool.and_eq_true, Bool.or_eq_true] at h
+    rcases List.mem_cons.mp hf with rfl | hf
+    · rcases h.1 with h1 | h1
+      · rw [hi] at h1; simp at h1
+      · exact h1
+    · exact returnsFields_mem env fuel gs h.2 f hf hi
+
+theorem returnsAll_mem (env : Env) (fuel : Nat) : ∀ (ms : List Ty), returnsAll env fuel ms = true →
+    ∀ m ∈ ms, returns env fuel m = true
+  | [], _, m, hm => by simp at hm
+  | x :: xs, h, m, hm => by
+    simp only [returnsAll, Bool.and_eq_true] at h
+    rcases List.mem_cons.mp hm with rfl | hm
+    · exact h.1
+    · exact returnsAll_mem env fuel xs h.2 m hm
+
 end Gomacro.RandSem
